@@ -11,7 +11,7 @@ use super::{
     TSetIdentifier, TStructIdentifier, TType, ThriftException, ZERO_COPY_THRESHOLD,
     error::ProtocolExceptionKind,
     new_protocol_exception,
-    rw_ext::{ReadExt, WriteExt, split_to_checked},
+    rw_ext::{ReadExt, WriteExt, checked_container_size, split_to_checked},
 };
 
 const VERSION_LE: u32 = 0x88880000;
@@ -921,7 +921,10 @@ impl TInputProtocol for TBinaryProtocol<&mut Bytes> {
     fn read_list_begin(&mut self) -> Result<TListIdentifier, ThriftException> {
         let element_type: TType = self.read_byte().and_then(|n| Ok(field_type_from_u8(n)?))?;
         let size = self.read_i32()?;
-        Ok(TListIdentifier::new(element_type, size as usize))
+        Ok(TListIdentifier::new(
+            element_type,
+            checked_container_size(size, self.trans.len())?,
+        ))
     }
 
     #[inline]
@@ -933,7 +936,10 @@ impl TInputProtocol for TBinaryProtocol<&mut Bytes> {
     fn read_set_begin(&mut self) -> Result<TSetIdentifier, ThriftException> {
         let element_type: TType = self.read_byte().and_then(|n| Ok(field_type_from_u8(n)?))?;
         let size = self.read_i32()?;
-        Ok(TSetIdentifier::new(element_type, size as usize))
+        Ok(TSetIdentifier::new(
+            element_type,
+            checked_container_size(size, self.trans.len())?,
+        ))
     }
 
     #[inline]
@@ -946,7 +952,11 @@ impl TInputProtocol for TBinaryProtocol<&mut Bytes> {
         let key_type: TType = self.read_byte().and_then(|n| Ok(field_type_from_u8(n)?))?;
         let value_type: TType = self.read_byte().and_then(|n| Ok(field_type_from_u8(n)?))?;
         let size = self.read_i32()?;
-        Ok(TMapIdentifier::new(key_type, value_type, size as usize))
+        Ok(TMapIdentifier::new(
+            key_type,
+            value_type,
+            checked_container_size(size, self.trans.len())?,
+        ))
     }
 
     #[inline]
